@@ -379,16 +379,16 @@ def consumer_ops(rng):
                          {'forbidden_strings': ['x*x']}, {'whitelist': [None]}])
         g = FormulaGrader(answers=ans, variables=['x', 'y', 'k', 'z'], numbered_vars=['a'], metric_suffixes=rng.random() < 0.5,
                           sample_from={'z': DependentSampler(depends=['x', 'y'], formula=rng.choice(['x+y', 'sin(x)*y', 'k^2', 'abs(x)']))}, **kw)
-        return g(None, rng.choice([ans, 'x^2', 'k^2', 'k*k', 'sin(y)+x*x', 'z+1', 'abs(x)+k', 'tan(x)']))
+        return g(None, rng.choice([ans, 'x^2', 'k^2', 'k*k', 'sin(y)+x*x', 'z+1', 'abs(x)+k', 'tan(x)', '', '  ']))
 
     def numg():
         g = NumericalGrader(answers=rng.choice(['2k', '1200', 'sqrt(4)', 'abs(-3)', '5%']), metric_suffixes=True, tolerance='1%')
-        return g(None, rng.choice(['2k', '2000', '1.2k', 'sqrt(4)', 'abs(-3)', '0.05', '2', 'floor(2.5)']))
+        return g(None, rng.choice(['2k', '2000', '1.2k', 'sqrt(4)', 'abs(-3)', '0.05', '2', 'floor(2.5)', '', ' ']))
 
     def matg():
         g = MatrixGrader(answers=rng.choice(['[x,y]*2', 'A*v', 'trans(A)*A', 'norm(v)*k^2']), variables=['x', 'y', 'A', 'v', 'k'],
                          sample_from={'A': RealVectors(shape=[2, 2]) if False else __import__('mitxgraders').RealMatrices(shape=[2, 2]), 'v': RealVectors(shape=2)})
-        return g(None, rng.choice(['[x,y]*2', '[2*x,2*y]', 'A*v', 'trans(A)*A', 'k^2*norm(v)', 'k^2', 'abs(v)']))
+        return g(None, rng.choice(['[x,y]*2', '[2*x,2*y]', 'A*v', 'trans(A)*A', 'k^2*norm(v)', 'k^2', 'abs(v)', '', ' ']))
 
     def listg():
         g = ListGrader(answers=['x+1', 'k^2'], subgraders=FormulaGrader(variables=['x', 'k']), ordered=rng.random() < 0.5)
